@@ -55,10 +55,14 @@ func (f Fin) Coq() string {
 		return "FCount"
 	case "pluck":
 		return lib.App("FPluck", lib.Str(f.S))
-	case "update":
+	case "update", "update_column":
 		return lib.App("FUpdate", lib.Str(f.S), f.X.Coq())
-	case "updates_map":
+	case "updates_map", "update_columns":
 		return lib.App("FUpdatesMap", CoqList(f.L))
+	case "save_struct":
+		return lib.App("FSaveStruct", CoqList(f.L))
+	case "save_slice":
+		return lib.App("FSaveSlice", CoqList(f.L))
 	case "updates_struct":
 		return lib.App("FUpdatesStruct", CoqList(f.L))
 	case "delete":
@@ -141,6 +145,10 @@ func canon(v interface{}) Sc {
 		return Sc{K: "int", I: int64(rv.Uint())}
 	case reflect.String:
 		return Sc{K: "str", S: rv.String()}
+	case reflect.Slice:
+		if rv.Type().Elem().Kind() == reflect.Uint8 {
+			return Sc{K: "bytes", S: string(rv.Bytes())}
+		}
 	case reflect.Bool:
 		return Sc{K: "bool", B: rv.Bool()}
 	}
@@ -180,6 +188,19 @@ func (g Gctx) Finish(tx *gorm.DB, f Fin) *gorm.DB {
 		return tx.Update(f.S, g.val(*f.X))
 	case "updates_map":
 		return tx.Updates(namedEntries(f.L, g))
+	case "update_column":
+		return tx.UpdateColumn(f.S, g.val(*f.X))
+	case "update_columns":
+		return tx.UpdateColumns(namedEntries(f.L, g))
+	case "save_struct":
+		it := g.item(f.L)
+		return tx.Save(&it)
+	case "save_slice":
+		its := make([]Item, len(f.L))
+		for i, r := range f.L {
+			its[i] = g.item(r.L)
+		}
+		return tx.Save(&its)
 	case "updates_struct":
 		return tx.Updates(g.item(f.L))
 	case "delete":
@@ -218,12 +239,7 @@ func Dry(db *gorm.DB, in Input) (o Obs) {
 		}
 	}()
 	g := NewGctx(db.Session(&gorm.Session{}))
-	var tx *gorm.DB
-	if in.Fin.K == "raw" || in.Fin.K == "exec" {
-		tx = g.Finish(g.db, in.Fin)
-	} else {
-		tx = g.Finish(g.chain(g.handle(in.TI), in.Chain), in.Fin)
-	}
+	tx := g.Run(in)
 	o.SQL = tx.Statement.SQL.String()
 	o.Vars = CanonAll(tx.Statement.Vars)
 	if tx.Error != nil {
@@ -244,12 +260,7 @@ func RealRun(db *gorm.DB, rec *recdrv.Recorder, in Input) (o Obs) {
 	defer outer.Rollback()
 	rec.Reset()
 	g := NewGctx(outer)
-	var tx *gorm.DB
-	if in.Fin.K == "raw" || in.Fin.K == "exec" {
-		tx = g.Finish(g.db, in.Fin)
-	} else {
-		tx = g.Finish(g.chain(g.handle(in.TI), in.Chain), in.Fin)
-	}
+	tx := g.Run(in)
 	for _, e := range rec.Snapshot() {
 		o.Ev = append(o.Ev, e.Kind)
 		if (e.Kind == "exec" || e.Kind == "query" || e.Kind == "stmt_exec" || e.Kind == "stmt_query") && o.SQL == "" {
